@@ -1,7 +1,8 @@
 /-
-C10 — JaCoCo report fidelity. Property theorems about `Jacoco.parse`, the event-level model of
-`parse_jacoco_xml_report` (model: GrcovModel/Jacoco.lean; what a report means and which event
-sequences serialise it: GrcovModel/Spec/Jacoco.lean; helper lemmas: GrcovModel/Lemmas/Jacoco.lean).
+C10 — JaCoCo report fidelity. Property theorems about `Jacoco.parseCap` / `Jacoco.parse`, the
+event-level model of `parse_jacoco_xml_report` (model: GrcovModel/Jacoco.lean; what a report means
+and which event sequences serialise it: GrcovModel/Spec/Jacoco.lean; helper lemmas:
+GrcovModel/Lemmas/Jacoco.lean).
 
 Quantifiers. A serialisation is an `XReport`: the abstract report together with every choice the
 writer is free to make – order of `<class>`/`<sourcefile>` elements, the complete attribute list
@@ -9,29 +10,91 @@ of each element in any order with any extra attributes, the escaping of names an
 numbers (anything the attribute reader accepts), empty-element vs start/end tags, namespace
 prefixes, and arbitrary ignorable events (text, comments, declaration, doctype, session info,
 group wrappers, counters of other types, unknown elements) between the elements the parser uses.
-`wf x` is the well-formedness of that serialisation and of the report it denotes (`abs x`):
-distinct attribute keys, method names unique within their class, line numbers unique within a
-source file, source-file names unique within a package, `Class#method` unique within a file.
-All theorems hold for every such `x`, of any size, and for every fuel from `enoughFuel` upwards
-(`enoughFuel evs = 2·|evs| + 1`).
+A `<method>` may lack its `line` attribute (report.dtd: `#IMPLIED`), a `<class>` its
+`sourcefilename`.
+
+* `wfSrc x`: the serialisation is well formed (distinct attribute keys, required attributes present
+  and readable), line numbers are unique within a source file and source-file names within a package.
+  Nothing is asked of method names: overloads (`<init>` twice) are allowed.
+* `wf x` = `wfSrc x` + method names unique within their class and `Class#method` unique within a
+  file. THIS IS THE QUANTIFIER OF THE PROPERTY TEXT ("methods with names unique within their class"):
+  the property really restricts to unique names, and `C10_fidelity` carries that guard. What the
+  code does without it is `C10_fidelity_overloads` + `C10_repeated_method_last_wins` (unguarded),
+  and `C10_fidelity_without_name_guard_false` shows the guard cannot be dropped (every real Java
+  report has overloaded methods: finding candidate C10-overloaded-methods-collapse).
+* `good cap x`: the two conditions under which the parser returns `Ok` at all on such input:
+  every `<method>` has a `line` attribute (`C10_method_without_line_rejects_the_report`: otherwise
+  `Err(InvalidRecord)` for the WHOLE report – DTD-valid reports of classes without debug
+  information are rejected: finding candidate C10-method-without-line-rejects-report), and no
+  `<line>` has `cb + mb > cap` (`C10_oversized_branch_vector_crashes`: otherwise the outcome is
+  `alloc` = "capacity overflow" panic or allocation abort; `cap` ≤ `allocMax` = isize::MAX is the
+  longest vector the machine builds; `parse = parseCap allocMax`).
+
+All theorems hold for every such `x`, of any size, every `cap`, and every fuel from `enoughFuel`
+upwards (`enoughFuel evs = 2·|evs| + 1`).
 
 Not part of the model (exercised by the correspondence run only): the quick-xml tokenizer
 (bytes ↔ events), UTF-8 validation of names, the `FxHashMap` iteration order inside one package
-(results are compared as sorted lists).
+(results are compared as sorted lists), memory used up by many lines each below `cap`.
 -/
 import GrcovModel.Lemmas.Jacoco
 namespace Grcov.Props.C10
 open Grcov AList Grcov.Jacoco Grcov.Jacoco.Spec
 
-/-- Fidelity: for every well-formed serialisation `x` of a well-formed report – any interleaving
-of class and sourcefile elements, any attribute order, any extra attributes and ignorable elements,
-either tag form – the parser returns exactly the records the report denotes (`sem (abs x)`:
-one record `package/file` per source file, `cb` taken then `mb` not-taken entries for a branch
-line, count 1/0 for a statement line, `Class#method` functions on the class's source file),
-with any fuel ≥ `enoughFuel`. -/
-theorem C10_fidelity (x : XReport) (h : wf x = true) (fuel : Nat)
-    (hf : fuel ≥ enoughFuel (events x)) : parse (events x) fuel = .ok (sem (abs x)) :=
-  parse_events x h fuel (by have := enoughFuel_gt (events x); omega)
+/-- Fidelity (the property's quantifier: method names unique within their class): for every
+well-formed serialisation `x` of a well-formed report – any interleaving of class and sourcefile
+elements, any attribute order, any extra attributes and ignorable elements, either tag form – in
+which every method has a `line` and every branch vector fits `cap`, the parser returns exactly the
+records the report denotes (`sem (abs x)`: one record `package/file` per source file, `cb` taken
+then `mb` not-taken entries for a branch line, count 1/0 for a statement line, `Class#method`
+functions on the class's source file), with any fuel ≥ `enoughFuel`. -/
+theorem C10_fidelity (cap : Nat) (x : XReport) (h : wf x = true) (hg : good cap x = true)
+    (fuel : Nat) (hf : fuel ≥ enoughFuel (events x)) :
+    parseCap cap (events x) fuel = .ok (sem (abs x)) :=
+  parse_events cap x h hg fuel (by have := enoughFuel_gt (events x); omega)
+
+/-- Fidelity WITHOUT any condition on method names (overloads allowed): the parser returns
+`semL (abs x)`, which is `sem` except that the functions of a file are the pairs
+`(Class#name, ⟨line, executed⟩)` of all its classes' methods in document order INSERTED one after
+the other – a repeated name keeps one entry (`C10_repeated_method_last_wins`). -/
+theorem C10_fidelity_overloads (cap : Nat) (x : XReport) (h : wfSrc x = true)
+    (hg : good cap x = true) (fuel : Nat) (hf : fuel ≥ enoughFuel (events x)) :
+    parseCap cap (events x) fuel = .ok (semL (abs x)) :=
+  parse_eventsL cap x h hg fuel (by have := enoughFuel_gt (events x); omega)
+
+/-- What the code does for repeated names, exactly: in the record of file `f` the function `k`
+(= `Class#name`) carries the start line and executed flag of the LAST `<method>` with that name,
+in document order, over all `<class>` elements mapped to `f` (`Item.funsFor f` lists, class by
+class and method by method, the pairs `(Class#name, ⟨line, executed⟩)`; `lastVal` is the value of
+the last pair with key `k`); the descriptor plays no role. No hypothesis. -/
+theorem C10_repeated_method_last_wins (items : List Item) (f k : Name) :
+    get? (covForL items f).functions k = lastVal (items.flatMap (Item.funsFor f)) k :=
+  get?_insertAll _ k
+
+/-- With unique names (the property's quantifier) nothing collapses: `semL = sem`. -/
+theorem C10_unique_names_nothing_collapses (r : Report) (h : r.wf = true) : semL r = sem r :=
+  semL_eq_sem r h
+
+/-- Lines and branches do not depend on the methods: without any condition on method names the
+parser's records carry exactly the paths, lines and branch vectors of `sem (abs x)`. -/
+theorem C10_fidelity_lines_and_branches (cap : Nat) (x : XReport) (h : wfSrc x = true)
+    (hg : good cap x = true) (fuel : Nat) (hf : fuel ≥ enoughFuel (events x)) :
+    ∃ res, parseCap cap (events x) fuel = .ok res ∧ res.map lbOf = (sem (abs x)).map lbOf :=
+  ⟨_, C10_fidelity_overloads cap x h hg fuel hf, semL_lines_branches _⟩
+
+/-- `C10_fidelity` without the unique-name guard (every `<method>` yields its own function) -/
+def C10_fidelity_without_name_guard_stmt : Prop :=
+  ∀ (x : XReport), wfSrc x = true → good allocMax x = true →
+    parse (events x) (enoughFuel (events x)) = .ok (sem (abs x))
+
+/-- … is false of the code: two `<init>` in one class (line 3 executed, line 7 not executed) give
+ONE function `A#<init>`, line 7, not executed (`exOverload`; the harness replays it on the real
+parser: corpus witness of C10-overloaded-methods-collapse). -/
+theorem C10_fidelity_without_name_guard_false : ¬ C10_fidelity_without_name_guard_stmt := by
+  intro h
+  have := h exOverload (by decide +kernel) (by decide +kernel)
+  revert this
+  decide +kernel
 
 /-- `enoughFuel` (2·events + 1) exceeds the number of events after empty-element expansion, which
 is all the fuel a terminating run needs. -/
@@ -40,11 +103,15 @@ theorem C10_fuel_bound (evs : List XmlEvent) :
   ⟨rfl, enoughFuel_gt evs⟩
 
 /-- Ignored elements and attributes do not matter, nor do attribute order, tag form or escaping:
-two well-formed serialisations that denote the same abstract report parse to the same result. -/
-theorem C10_ignored_do_not_matter (x y : XReport) (hx : wf x = true) (hy : wf y = true)
-    (h : abs x = abs y) :
-    parse (events x) (enoughFuel (events x)) = parse (events y) (enoughFuel (events y)) := by
-  rw [C10_fidelity x hx _ (Nat.le_refl _), C10_fidelity y hy _ (Nat.le_refl _), h]
+two well-formed serialisations that denote the same abstract report (method names may repeat)
+parse to the same result. -/
+theorem C10_ignored_do_not_matter (cap : Nat) (x y : XReport) (hx : wfSrc x = true)
+    (hy : wfSrc y = true) (gx : good cap x = true) (h : abs x = abs y) :
+    parseCap cap (events x) (enoughFuel (events x))
+      = parseCap cap (events y) (enoughFuel (events y)) := by
+  have gy : good cap y = true := by unfold good at gx ⊢; rw [← h]; exact gx
+  rw [C10_fidelity_overloads cap x hx gx _ (Nat.le_refl _),
+    C10_fidelity_overloads cap y hy gy _ (Nat.le_refl _), h]
 
 /-- Attribute order does not matter to `get_xml_attribute` (every outcome, errors included), as
 long as the keys are distinct, which XML requires. -/
@@ -80,13 +147,15 @@ theorem C10_line_meaning (ls : List Line) (nd : (ls.map (·.nr)).Nodup) (l : Lin
         ∧ get? (branchCov ls) l.nr = none :=
   line_meaning ls nd l hl
 
-/-- What a `<method>` means: every method `m` of every class `c` of a package is the function
-`Class#method` (simple, `$`-qualified class name) on the record of the class's source file,
-starting at the method's `line`, executed iff its METHOD counter has `covered > 0`. -/
+/-- What a `<method>` means when `Class#method` is unique within the file (`nd`, the property's
+quantifier): every method `m` of every class `c` of a package is the function `Class#method`
+(simple, `$`-qualified class name) on the record of the class's source file, starting at the
+method's `line`, executed iff its METHOD counter has `covered > 0`. For repeated names see
+`C10_repeated_method_last_wins`. -/
 theorem C10_method_meaning (items : List Item) (c : Class) (m : Method) (hc : Item.cls c ∈ items)
     (hm : m ∈ c.methods) (nd : ((items.flatMap (Item.funsFor c.file)).map (·.1)).Nodup) :
     get? (covFor items c.file).functions (c.simple ++ cHash :: m.name)
-      = some ⟨m.line, m.executed⟩ :=
+      = some ⟨m.line.getD 0, m.executed⟩ :=
   method_meaning items c m hc hm nd
 
 /-- Termination, for EVERY event sequence (well nested or not, truncated anywhere, with tokenizer
@@ -96,15 +165,77 @@ theorem C10_always_terminates (evs : List XmlEvent) (fuel : Nat) (hf : fuel ≥ 
     parse evs fuel ≠ .diverge :=
   parse_terminates evs fuel hf
 
+/-- … and so for every `cap` (`parse = parseCap allocMax`). -/
+theorem C10_always_terminates_any_cap (cap : Nat) (evs : List XmlEvent) (fuel : Nat)
+    (hf : fuel ≥ enoughFuel evs) : parseCap cap evs fuel ≠ .diverge :=
+  parseCap_terminates cap evs fuel hf
+
+/-- The one crash site: a `<line>` with all four attributes crashes (`alloc`: "capacity overflow"
+panic above isize::MAX, allocation abort below) exactly when `cb + mb > cap`; and in a
+`<sourcefile>` whose earlier content is well formed and fits, the first well-formed `<line>` that
+does not fit ends the run with `alloc`, whatever follows it. -/
+theorem C10_oversized_branch_vector_crashes (cap : Nat) :
+    (∀ acc ci cb mb nr, commitLine cap acc ⟨some ci, some cb, some mb, some nr⟩ = .alloc
+        ↔ cb + mb > cap) ∧
+    (∀ (pre : List SSeg) (bad : SSeg), (∀ s ∈ pre, s.wf = true) → (∀ s ∈ pre, s.fits cap = true) →
+      bad.wf = true → bad.fits cap = false →
+      ∀ (fuel : Nat) (rest : List XmlEvent) (acc : SrcAcc),
+        fuel > (expand (pre.flatMap SSeg.events)).length →
+        sourcefileLoop cap fuel
+          (expand (pre.flatMap SSeg.events) ++ (expand bad.events ++ rest)) acc = .alloc) :=
+  ⟨commitLine_alloc_iff cap, src_body_alloc cap⟩
+
+/-- A `<method>` without a `line` attribute rejects the report: inside a `<class>` whose earlier
+content is well formed (methods with `line`), the first well-formed `<method>` that has no `line`
+attribute ends the run with `Err(InvalidRecord)`, whatever follows it. -/
+theorem C10_method_without_line_rejects_the_report (cls : Name) (pre : List CSeg) (bad : CSeg)
+    (hb : ∀ s ∈ pre, s.wf = true) (hl : ∀ s ∈ pre, s.lined = true)
+    (hbad : bad.wf = true) (hnl : bad.lined = false)
+    (fuel : Nat) (rest : List XmlEvent) (fns : List (Name × Fn))
+    (hf : fuel > (expand (pre.flatMap CSeg.events)).length) :
+    classLoop cls fuel (expand (pre.flatMap CSeg.events) ++ (expand bad.events ++ rest)) fns
+      = .err .invalidRecord :=
+  class_body_noline cls pre bad hb hl hbad hnl fuel rest fns hf
+
+/-- Which missing attributes reject the report and which have a default. On an element whose
+attribute keys are distinct: `<method>` without `line` or without `name`, `<counter>` (inside a
+method) without `type`, a METHOD counter without `covered`, `<class>`/`<sourcefile>` without
+`name` ⇒ `Err(InvalidRecord)` (for `<line>` see `C10_line_attribute_error_kinds`: `ci`, `cb`,
+`mb`, `nr` are all required, `mi` is not read; for `<package>`
+`C10_missing_package_name_is_invalid_record`). Defaults: a `<class>` without `sourcefilename` is
+mapped to `<top-level class>.java`; a method without METHOD counter is not executed; `desc`,
+`missed` and every other attribute are never read. -/
+theorem C10_missing_attribute_outcomes (n : Name) (a : List Attr) (rest : List XmlEvent)
+    (fuel : Nat) (nd : nodupKeys a = true) :
+    (localName n = sMethod → (∃ nm, hasAttr a sName nm = true) → hasNoKey a sLine = true →
+      ∀ cls fns, classLoop cls (fuel + 1) (.start n a :: rest) fns = .err .invalidRecord) ∧
+    (localName n = sMethod → hasNoKey a sName = true →
+      ∀ cls fns, classLoop cls (fuel + 1) (.start n a :: rest) fns = .err .invalidRecord) ∧
+    (localName n = sCounter → hasNoKey a sType = true →
+      ∀ ex, methodLoop (fuel + 1) (.start n a :: rest) ex = .err .invalidRecord) ∧
+    (localName n = sCounter → hasAttr a sType sMETHOD = true → hasNoKey a sCovered = true →
+      ∀ ex, methodLoop (fuel + 1) (.start n a :: rest) ex = .err .invalidRecord) ∧
+    (localName n = sClass ∨ localName n = sSourcefile → hasNoKey a sName = true →
+      ∀ cap pkg m, packageLoop cap pkg (fuel + 1) (.start n a :: rest) m = .err .invalidRecord) ∧
+    (hasNoKey a sSourcefilename = true → ∀ top, sourceFileOf a top = top ++ sDotJava) ∧
+    (∀ m : XMethod, m.body.filterMap MSeg.covered? = [] → m.abs.executed = false) :=
+  ⟨fun hn ⟨nm, h1⟩ h2 cls fns => method_without_line cls n a nm rest fuel fns hn nd h1 h2,
+   fun hn h1 cls fns => method_without_name cls n a rest fuel fns hn nd h1,
+   fun hn h1 ex => counter_without_type n a rest fuel ex hn nd h1,
+   fun hn h1 h2 ex => method_counter_without_covered n a rest fuel ex hn nd h1 h2,
+   fun hn h1 cap pkg m => class_or_sourcefile_without_name cap pkg n a rest fuel m hn nd h1,
+   fun h top => class_without_sourcefilename a top nd h,
+   fun m h => method_without_counter m h⟩
+
 /-- End of input inside a `<package>`, `<class>`, `<method>` or `<sourcefile>` element is
 `ParserError::Parse` (every nested loop has an `Eof` arm since 34e25d5). -/
 theorem C10_eof_inside_element_is_parse_error (fuel : Nat) :
-    (∀ pkg m, packageLoop pkg (fuel + 1) [] m = .err .parse) ∧
+    (∀ cap pkg m, packageLoop cap pkg (fuel + 1) [] m = .err .parse) ∧
     (∀ cls fns, classLoop cls (fuel + 1) [] fns = .err .parse) ∧
     (∀ ex, methodLoop (fuel + 1) [] ex = .err .parse) ∧
-    (∀ acc, sourcefileLoop (fuel + 1) [] acc = .err .parse) :=
-  ⟨fun pkg m => packageLoop_eof pkg fuel m, fun cls fns => classLoop_eof cls fuel fns,
-   fun ex => methodLoop_eof fuel ex, fun acc => sourcefileLoop_eof fuel acc⟩
+    (∀ cap acc, sourcefileLoop cap (fuel + 1) [] acc = .err .parse) :=
+  ⟨fun cap pkg m => packageLoop_eof cap pkg fuel m, fun cls fns => classLoop_eof cls fuel fns,
+   fun ex => methodLoop_eof fuel ex, fun cap acc => sourcefileLoop_eof cap fuel acc⟩
 
 /-- The former hang witness: the report
 `<report><package name="p"><class name="p/A"><method name="m" line="1">` cut at that point is a
@@ -123,12 +254,12 @@ theorem C10_missing_package_name_is_invalid_record (n : Name) (a : List Attr)
 /-- `<line>` attributes: whatever fails while the attributes are read (a repeated key, a value
 that is not an unsigned number of the right width) is `ParserError::Parse`; a missing
 `ci`/`cb`/`mb`/`nr` is `ParserError::InvalidRecord`. -/
-theorem C10_line_attribute_error_kinds (attrs : List Attr) (acc : SrcAcc) (la : LineAcc)
+theorem C10_line_attribute_error_kinds (cap : Nat) (attrs : List Attr) (acc : SrcAcc) (la : LineAcc)
     (k : ErrKind) :
     (lineAttrs [] attrs {} = .error k → k = .parse) ∧
-    (commitLine acc la = .error k →
+    (commitLine cap acc la = .err k →
       k = .invalidRecord ∧ (la.ci = none ∨ la.cb = none ∨ la.mb = none ∨ la.nr = none)) :=
-  ⟨lineAttrs_error_kind attrs [] {} k, commitLine_error_kind acc la k⟩
+  ⟨lineAttrs_error_kind attrs [] {} k, commitLine_error_kind cap acc la k⟩
 
 /-- The conditions of `wf` on names and numbers are met by ordinary XML: the minimally escaped
 form of any name unescapes to it, and the plain decimal numeral of any number within the bound is
@@ -163,7 +294,25 @@ other types, text, shuffled and extra attributes, `&lt;init&gt;`, `&#53;`, `+1`,
 source file before its classes, nested class, class without `sourcefilename`, default package) and
 `exPlain` are well-formed serialisations of the same report … -/
 example : wf exNoisy = true ∧ wf exPlain = true ∧ abs exNoisy = abs exPlain
-    ∧ exNoisy ≠ exPlain := by decide +kernel
+    ∧ exNoisy ≠ exPlain ∧ good 3 exNoisy = true ∧ good 2 exNoisy = false := by decide +kernel
+
+/-- the overload witness: well formed apart from the repeated name; the parser returns ONE function
+`A#<init>` (line 7, not executed) where the report has two (`sem`: line 3 executed, line 7 not) -/
+example : wfSrc exOverload = true ∧ wf exOverload = false ∧ good allocMax exOverload = true
+    ∧ parse (events exOverload) (enoughFuel (events exOverload))
+        = .ok [(exOverloadPath, { functions := [(exOverloadInit, ⟨7, false⟩)] })]
+    ∧ sem (abs exOverload)
+        = [(exOverloadPath, { functions := [(exOverloadInit, ⟨3, true⟩), (exOverloadInit, ⟨7, false⟩)] })]
+    ∧ lastVal [(exOverloadInit, ⟨3, true⟩), (exOverloadInit, ⟨7, false⟩)] exOverloadInit = some ⟨7, false⟩ := by
+  decide +kernel
+
+/-- a DTD-valid report with a `<method>` without `line` is rejected as a whole; the
+2^64-1-entry branch vector is the `alloc` outcome (with `cap = allocMax`: the capacity-overflow
+panic), although both serialisations are well formed -/
+example : wf exNoLine = true ∧ good allocMax exNoLine = false
+    ∧ parse (events exNoLine) (enoughFuel (events exNoLine)) = .err .invalidRecord
+    ∧ wf exBig = true ∧ good allocMax exBig = false
+    ∧ parse (events exBig) (enoughFuel (events exBig)) = .alloc := by decide +kernel
 
 /-- … the model run on the 42 events of the noisy one returns the two records the report denotes -/
 example : parse (events exNoisy) (enoughFuel (events exNoisy)) = .ok exExpected
